@@ -103,3 +103,53 @@ Definition run_c11uci (l : list Z) : list Z :=
     end
   | _ => []
   end.
+
+(* c11reuse: mode k (flag_i n_i bytes_i)*k
+             -> per string: cls [board-out tlen text..] fcls [board-out]
+   ONE Go Board value receives the k texts one after the other through board.ParseFEN (mode 0),
+   ParseFEN followed by ResetHash (mode 1) or epd.Parse of text ++ "; 1.0" (mode 2: the tuner reads a
+   whole file into one Board); the second half of every record is the same call on a FRESH Board.
+   ParseFEN starts with *b = Board{}, so the result is a function of the text alone: the model
+   evaluates [parse_fen] on every text independently, and reused and fresh halves are the same. *)
+Fixpoint reuse_items (k : nat) (l : list Z) : list (list N) :=
+  match k, l with
+  | S k', _ :: n :: r => bytes_of (firstn (Z.to_nat n) r) :: reuse_items k' (skipn (Z.to_nat n) r)
+  | _, _ => []
+  end.
+
+Definition reuse_one (mode : Z) (s : list N) : option (list Z) :=
+  let res : option (option board) :=
+    if mode =? 2 then
+      match epd_parse (s ++ epd_suffix 2) with
+      | EpdOk b _ => Some (Some b) | EpdInvalid => Some None | EpdPanic => None
+      end
+    else
+      match parse_fen s with
+      | Ok b => Some (Some (if mode =? 1 then reset_hash zob_real b else b))
+      | Err _ => Some None
+      | _ => None
+      end in
+  match res with
+  | None => None
+  | Some None =>
+      let code := if mode =? 2 then 1 else match parse_fen s with Err e => ferr_code e | _ => 0 end in
+      Some [code; code]
+  | Some (Some b) =>
+      let text := print_fen b in
+      Some ([0] ++ encode_board b ++ Z.of_nat (length text) :: zs_of text ++ [0] ++ encode_board b)
+  end.
+
+Definition run_c11reuse (l : list Z) : list Z :=
+  match l with
+  | mode :: k :: r =>
+    let fix go (items : list (list N)) : option (list Z) :=
+      match items with
+      | [] => Some []
+      | s :: t => match reuse_one mode s, go t with
+                  | Some a, Some b => Some (a ++ b)
+                  | _, _ => None
+                  end
+      end in
+    match go (reuse_items (Z.to_nat k) r) with Some o => o | None => panic_out end
+  | _ => []
+  end.
